@@ -371,7 +371,7 @@ func (s *RequestStream) ReadResponse() (*http.Response, error) {
 	// Check that the server doesn't send more data in DATA frames than indicated by the Content-Length header (if set).
 	// See section 4.1.2 of RFC 9114.
 	respBody := newResponseBody(s.str, res.ContentLength, s.reqDone)
-	respBody.body.noBodyExpected = s.isHead || res.StatusCode == http.StatusNotModified
+	respBody.body.noBodyExpected = s.isHead || res.StatusCode == http.StatusNotModified || res.StatusCode == http.StatusNoContent
 
 	// Rules for when to set Content-Length are defined in https://tools.ietf.org/html/rfc7230#section-3.3.2.
 	isInformational := res.StatusCode >= 100 && res.StatusCode < 200
